@@ -470,3 +470,15 @@ def enumerate_start(xs):
 
 def any_positive_rate(rates):
     return (bool(all(rates == 0)), bool(np.all(rates == 0)), bool(np.any(rates > 0)))
+
+
+def comp_with_branching_helper(xs):
+    def f(v):
+        if v > 2:
+            return 1
+        return 0
+    return [f(v) for v in xs]
+
+
+def comp_with_ifexp(xs):
+    return [(1 if v > 2 else 0) for v in xs]
